@@ -166,3 +166,65 @@ Definition old_sanitized (s : string) : string :=          (* "\n" -> "\\n", dou
 Theorem refuted_before_fix_backslash :
   scan_literal 10 (old_sanitized "a\d" ++ """") = None.
 Proof. vm_compute. reflexivity. Qed.
+
+(* ------------------------------------------------------------------ patterns and value lists *)
+Lemma scan_raw_verbatim : forall p rest, has_backtick p = false -> scan_raw (p ++ String "`" rest) = Some (p, rest).
+Proof.
+  induction p as [|c p IH]; simpl; intros rest H; [reflexivity|].
+  apply orb_false_iff in H as [Hc Hp]. rewrite Hc. now rewrite (IH rest Hp).
+Qed.
+
+(* every regular expression, with or without backticks, quotes, backslashes or newlines, is read back by the engine as
+   exactly that text, and the code after the literal is untouched *)
+Theorem pattern_literal_verbatim : forall p rest,
+  scan_string_term (S (String.length p)) (pattern_literal p ++ rest) = Some (p, rest).
+Proof.
+  intros p rest. unfold pattern_literal. destruct (has_backtick p) eqn:E.
+  - assert (H : (String """" (escape p ++ """") ++ rest)%string = String """" (escape p ++ String """" rest)).
+    { simpl. f_equal. rewrite sappend_assoc. reflexivity. }
+    rewrite H. unfold scan_string_term. change (Ascii.eqb """" "`") with false. cbv iota. rewrite Ascii.eqb_refl.
+    apply scan_escape. lia.
+  - assert (H : (String "`" (p ++ "`") ++ rest)%string = String "`" (p ++ String "`" rest)).
+    { simpl. f_equal. rewrite sappend_assoc. reflexivity. }
+    rewrite H. unfold scan_string_term. rewrite Ascii.eqb_refl. now apply scan_raw_verbatim.
+Qed.
+(* before the repair a pattern with a backtick ended its own literal early *)
+Lemma pattern_refuted_before_fix : scan_raw ("x`y" ++ String "`" ",v)") = Some ("x", "y`,v)").
+Proof. reflexivity. Qed.
+
+(* the literal written for a value list is always a set, never the empty object *)
+Theorem string_set_is_a_set : forall l, classify_collection (string_set_literal l) = KSet.
+Proof.
+  intros [|x r]; [reflexivity|]. unfold string_set_literal. destruct r; reflexivity.
+Qed.
+Lemma empty_braces_are_an_object : classify_collection "{ }" = KObject /\ classify_collection "{}" = KObject.
+Proof. split; reflexivity. Qed.
+
+(* every list of values - whatever the texts contain - is read back element by element as exactly those texts, and the
+   code after the last element is untouched *)
+Lemma scan_elements_step fuel n r :
+  scan_elements fuel (S (S n)) (String """" r) =
+  match scan_literal fuel r with
+  | Some (x, String "," rest') => match scan_elements fuel (S n) rest' with Some (l, z) => Some (x :: l, z) | None => None end
+  | _ => None
+  end.
+Proof. cbn [scan_elements]. destruct (scan_literal fuel r) as [[x rest]|]; [|reflexivity]. destruct rest as [|c rest']; [reflexivity|]. destruct c as [[] [] [] [] [] [] [] []]; reflexivity. Qed.
+
+Theorem list_values_verbatim : forall l fuel rest, l <> [] -> max_length l < fuel ->
+  scan_elements fuel (List.length l) (join_quoted l ++ rest) = Some (l, rest).
+Proof.
+  induction l as [|x r IH]; intros fuel rest Hne Hf; [congruence|].
+  destruct r as [|y r'].
+  - cbn [join_quoted List.length scan_elements]. cbn [append].
+    replace ((escape x ++ """") ++ rest) with (escape x ++ String """" rest) by (rewrite sappend_assoc; reflexivity).
+    rewrite scan_escape by (simpl in Hf; lia). reflexivity.
+  - assert (E : join_quoted (x :: y :: r') = String """" (escape x ++ """") ++ "," ++ join_quoted (y :: r')) by reflexivity.
+    rewrite E. change (List.length (x :: y :: r')) with (S (S (List.length r'))).
+    assert (H : ((String """" (escape x ++ """") ++ "," ++ join_quoted (y :: r')) ++ rest)%string
+              = String """" (escape x ++ String """" (String "," (join_quoted (y :: r') ++ rest)))).
+    { simpl. f_equal. rewrite !sappend_assoc. reflexivity. }
+    rewrite H. rewrite scan_elements_step. rewrite scan_escape by (simpl in Hf; lia).
+    assert (IH' := IH fuel rest (fun Hn => ltac:(discriminate Hn))).
+    change (List.length (y :: r')) with (S (List.length r')) in IH'.
+    rewrite IH' by (simpl in *; lia). reflexivity.
+Qed.
